@@ -874,3 +874,47 @@ def hash_eq_rule(rep, F):
             short = adt.rsplit("::", 1)[-1]
             rep.violation("HASH-EQ", "%s|%s" % (short, ",".join(sorted(h - e))), "%s hashes %s, which its equality ignores: two equal %s values (e.g. one decoded from an untagged array, one built through the API) land in different buckets, so a set-typed collection that contains them - directly or inside an element such as a pool registration's owners - keeps both, writes the element twice, and does not survive its own round trip" % (short, sorted(h - e), short), {})
     rep.floor("hand-written Hash / Eq pairs inside de-duplicated set elements", 3, n)
+
+
+def int_range_rule(rep, F):
+    """Int::from_str accepts exactly the range of a CBOR integer"""
+    rep.rule("INT-span", "Int::from_str builds an Int exactly for -2^64 ..= 2^64 - 1, the range the CBOR reader produces and to_str prints: the construction is dominated by comparisons of the parsed value with those two constants (a test of the magnitude alone cannot express the asymmetric range and rejects -2^64, which then survives neither the decimal-string nor the JSON round trip)")
+    # the sibling conversion from a big integer has the same range
+    bid = F.by_key("BigInt::as_int")
+    if len(bid) == 1:
+        rep.inst("INT-span")
+        bfn = F.fns[bid[0]]
+        sites = [bi for bi, bb in enumerate(bfn["bbs"]) if not bb["c"] for st in bb["st"] if st[1] == "=" and st[3][0] == "agg" and st[3][2].endswith("numeric::int::Int")]
+        via_neg = any((c.to or "").endswith("Int::new_negative") for c in F.calls(bid[0]))
+        if not sites and via_neg:
+            rep.violation("INT-span", "BigInt::as_int|lower|magnitude", "BigInt::as_int builds negative values through Int::new_negative(u64 magnitude), which cannot express -2^64: BigInt(-18446744073709551616).as_int() is None although an Int holds that value (Int::from_bytes(3b ff..ff))", {})
+        elif not sites:
+            rep.lost("BigInt::as_int: Int construction not found")
+        for bi in sites:
+            lo, why = gate_min(F, bid[0], bi)
+            hi = gate_limit(F, bid[0], bi)[0]
+            if lo != -(1 << 64) or hi != (1 << 64) - 1:
+                rep.violation("INT-span", "BigInt::as_int|range|%s..%s" % (lo, hi), "BigInt::as_int answers Some for %s ..= %s; the range of an Int is -2^64 ..= 2^64 - 1" % (lo, hi), {})
+    ids = F.by_key("Int::from_str")
+    if len(ids) != 1:
+        rep.lost("Int::from_str not found")
+        return
+    fn = F.fns[ids[0]]
+    n = 0
+    for bi, bb in enumerate(fn["bbs"]):
+        for st in bb["st"]:
+            if st[1] == "=" and st[3][0] == "agg" and st[3][2].endswith("numeric::int::Int"):
+                n += 1
+                rep.inst("INT-span")
+                lo, why = gate_min(F, ids[0], bi)
+                hi = gate_limit(F, ids[0], bi)[0]
+                uses_abs = any((c.to or "").rsplit("::", 1)[-1] in ("unsigned_abs", "abs", "checked_abs", "wrapping_abs") for c in F.calls(ids[0]))
+                if lo is None and uses_abs:
+                    rep.violation("INT-span", "Int::from_str|lower|magnitude", "Int::from_str bounds the magnitude only: -18446744073709551616 (= -2^64, which Int::from_bytes(3b ff..ff) yields and to_str prints) is rejected, so the decimal-string and JSON forms of that value do not read back", {})
+                elif lo is None:
+                    rep.lost("Int::from_str: lower bound of the accepted range not derivable (%s)" % why)
+                elif lo != -(1 << 64):
+                    rep.violation("INT-span", "Int::from_str|lower|%d" % lo, "Int::from_str accepts values down to %d; the range of an Int is -2^64 ..= 2^64 - 1" % lo, {})
+                if hi is not None and hi != (1 << 64) - 1:
+                    rep.violation("INT-span", "Int::from_str|upper|%d" % hi, "Int::from_str accepts values up to %d; the range of an Int is -2^64 ..= 2^64 - 1" % hi, {})
+    rep.floor("Int constructions in Int::from_str", 1, n)
